@@ -78,6 +78,7 @@ void Kernel::begin_step(int idx, const Step *s)
 	cur_step = idx; step = s;
 	memset(seam_cnt, 0, sizeof seam_cnt);
 	step_calls = 0;
+	extra_cache = -1;
 	next_write_err = 0;
 	opens.clear();
 	sched = Rng((s && s->sched ? s->sched : (plan->seed * 1000003ull + (unsigned long long) idx)) ^ 0x9e3779b9ull);
@@ -151,8 +152,15 @@ int Kernel::tick(int seam, const Fault **fo)
 {
 	int eintr = 0;
 	step_calls++; run_calls++;
-	if (run_calls > run_budget) end_run(OUT_HANG_RUN, "run syscall budget exceeded");
-	if (step_calls > step_budget) end_run(OUT_HANG_STEP, "step syscall budget exceeded");
+	// bounded liveness: a step may take step_budget calls plus an allowance proportional to the size of
+	// the buffer it works on (printing or writing n lines, or pushing b bytes through a one-byte pipe, honestly
+	// costs O(n) / O(b) calls)
+	if (run_calls > run_budget || step_calls > step_budget) {
+		if (extra_cache < 0) extra_cache = budget_extra ? budget_extra() : 0;	// (measured once per step, when first needed)
+		long extra = extra_cache;
+		if (run_calls > run_budget + 4 * extra) end_run(OUT_HANG_RUN, "run syscall budget exceeded");
+		if (step_calls > step_budget + extra) end_run(OUT_HANG_STEP, "step syscall budget exceeded");
+	}
 	const Fault *any = fault_for(S_ANY);
 	seam_cnt[S_ANY]++;
 	if (any && any->effect == "sigwinch") {
@@ -575,6 +583,8 @@ long sim_read(int fd, void *buf, unsigned long n)
 				memcpy(buf, p.buf.data(), (size_t) k);
 				p.buf.erase(0, (size_t) k);
 				K.ev("read_pipe", k, 0);
+				if (K.step_calls > 0) K.step_calls--;
+				if (K.run_calls > 0) K.run_calls--;
 				return k;
 			}
 			int w; K.pipe_refs(d->pipe, nullptr, &w);
@@ -696,6 +706,10 @@ long sim_write(int fd, const void *buf, unsigned long n)
 				if (k < (long) n) K.probe("pipe_partial_write");
 				p.buf.append((const char *) buf, (size_t) k);
 				K.ev("write_pipe", k, 0);
+				// bytes moved through a pipe are progress bounded by the data (capacities go down to one
+				// byte): they do not count against the syscall budgets
+				if (K.step_calls > 0) K.step_calls--;
+				if (K.run_calls > 0) K.run_calls--;
 				return k;
 			}
 			K.probe("pipe_full");
